@@ -68,6 +68,8 @@ pub proof fn axiom_vec_len_limit(v: &Vec<u8>)
 // ---- std functions without a vstd specification
 pub assume_specification<T> [bool::then_some] (b: bool, t: T) -> (r: Option<T>)
     ensures r == (if b { Some(t) } else { None::<T> });
+pub assume_specification<T> [<[T]>::to_vec] (s: &[T]) -> (r: Vec<T>) where T: core::clone::Clone
+    ensures r@ == s@;
 pub assume_specification<T> [<[T]>::fill] (s: &mut [T], v: T) where T: core::clone::Clone
     ensures final(s)@.len() == old(s)@.len(),
         forall|i: int| 0 <= i < old(s)@.len() ==> final(s)@[i] == v;
